@@ -40,7 +40,7 @@ func startWorker() *Worker {
 	if err != nil {
 		hx.Fatal("child stderr: %v", err)
 	}
-	cmd := exec.Command(self, "-child")
+	cmd := hx.Supervised(exec.Command(self, "-child"))
 	cmd.Env = append(os.Environ(), "GOMEMLIMIT=3GiB", "GOGC=50", "GOMAXPROCS=2", "GOTRACEBACK=single")
 	cmd.Stderr = ef
 	w.in, err = cmd.StdinPipe()
